@@ -39,6 +39,9 @@ func lookupIntrinsic(fn *ssa.Function) intrinsic {
 		if h, ok := harnessAPI[n]; ok {
 			return h
 		}
+		if h, ok := harnessAPI2[n]; ok {
+			return h
+		}
 	}
 	return nil
 }
